@@ -86,7 +86,14 @@ fn dbit(d: DoubleBit) -> u8 {
     }
 }
 
-fn base(info: HeaderInfo, ptype: PType, index: u16, val: RVal, flags: u8, time: Option<Time>) -> Item {
+fn base(
+    info: HeaderInfo,
+    ptype: PType,
+    index: u16,
+    val: RVal,
+    flags: u8,
+    time: Option<Time>,
+) -> Item {
     let (group, var) = info.variation.to_group_and_var();
     Item::M(Rec {
         ptype,
@@ -105,49 +112,132 @@ fn base(info: HeaderInfo, ptype: PType, index: u16, val: RVal, flags: u8, time: 
 
 impl ReadHandler for Recorder {
     fn begin_fragment(&mut self, read_type: ReadType, header: ResponseHeader) -> MaybeAsync<()> {
-        self.push(Item::Begin(format!("{read_type:?}"), header.control.seq.value()));
+        self.push(Item::Begin(
+            format!("{read_type:?}"),
+            header.control.seq.value(),
+        ));
         MaybeAsync::ready(())
     }
     fn end_fragment(&mut self, read_type: ReadType, header: ResponseHeader) -> MaybeAsync<()> {
-        self.push(Item::End(format!("{read_type:?}"), header.control.seq.value()));
+        self.push(Item::End(
+            format!("{read_type:?}"),
+            header.control.seq.value(),
+        ));
         MaybeAsync::ready(())
     }
-    fn handle_binary_input(&mut self, info: HeaderInfo, iter: &mut dyn Iterator<Item = (BinaryInput, u16)>) {
+    fn handle_binary_input(
+        &mut self,
+        info: HeaderInfo,
+        iter: &mut dyn Iterator<Item = (BinaryInput, u16)>,
+    ) {
         for (m, i) in iter {
-            self.push(base(info, PType::Binary, i, RVal::Bool(m.value), m.flags.value, m.time));
+            self.push(base(
+                info,
+                PType::Binary,
+                i,
+                RVal::Bool(m.value),
+                m.flags.value,
+                m.time,
+            ));
         }
     }
-    fn handle_double_bit_binary_input(&mut self, info: HeaderInfo, iter: &mut dyn Iterator<Item = (DoubleBitBinaryInput, u16)>) {
+    fn handle_double_bit_binary_input(
+        &mut self,
+        info: HeaderInfo,
+        iter: &mut dyn Iterator<Item = (DoubleBitBinaryInput, u16)>,
+    ) {
         for (m, i) in iter {
-            self.push(base(info, PType::DoubleBit, i, RVal::DBit(dbit(m.value)), m.flags.value, m.time));
+            self.push(base(
+                info,
+                PType::DoubleBit,
+                i,
+                RVal::DBit(dbit(m.value)),
+                m.flags.value,
+                m.time,
+            ));
         }
     }
-    fn handle_binary_output_status(&mut self, info: HeaderInfo, iter: &mut dyn Iterator<Item = (BinaryOutputStatus, u16)>) {
+    fn handle_binary_output_status(
+        &mut self,
+        info: HeaderInfo,
+        iter: &mut dyn Iterator<Item = (BinaryOutputStatus, u16)>,
+    ) {
         for (m, i) in iter {
-            self.push(base(info, PType::BinaryOutputStatus, i, RVal::Bool(m.value), m.flags.value, m.time));
+            self.push(base(
+                info,
+                PType::BinaryOutputStatus,
+                i,
+                RVal::Bool(m.value),
+                m.flags.value,
+                m.time,
+            ));
         }
     }
     fn handle_counter(&mut self, info: HeaderInfo, iter: &mut dyn Iterator<Item = (Counter, u16)>) {
         for (m, i) in iter {
-            self.push(base(info, PType::Counter, i, RVal::U32(m.value), m.flags.value, m.time));
+            self.push(base(
+                info,
+                PType::Counter,
+                i,
+                RVal::U32(m.value),
+                m.flags.value,
+                m.time,
+            ));
         }
     }
-    fn handle_frozen_counter(&mut self, info: HeaderInfo, iter: &mut dyn Iterator<Item = (FrozenCounter, u16)>) {
+    fn handle_frozen_counter(
+        &mut self,
+        info: HeaderInfo,
+        iter: &mut dyn Iterator<Item = (FrozenCounter, u16)>,
+    ) {
         for (m, i) in iter {
-            self.push(base(info, PType::FrozenCounter, i, RVal::U32(m.value), m.flags.value, m.time));
+            self.push(base(
+                info,
+                PType::FrozenCounter,
+                i,
+                RVal::U32(m.value),
+                m.flags.value,
+                m.time,
+            ));
         }
     }
-    fn handle_analog_input(&mut self, info: HeaderInfo, iter: &mut dyn Iterator<Item = (AnalogInput, u16)>) {
+    fn handle_analog_input(
+        &mut self,
+        info: HeaderInfo,
+        iter: &mut dyn Iterator<Item = (AnalogInput, u16)>,
+    ) {
         for (m, i) in iter {
-            self.push(base(info, PType::Analog, i, RVal::F64(m.value), m.flags.value, m.time));
+            self.push(base(
+                info,
+                PType::Analog,
+                i,
+                RVal::F64(m.value),
+                m.flags.value,
+                m.time,
+            ));
         }
     }
-    fn handle_frozen_analog_input(&mut self, info: HeaderInfo, iter: &mut dyn Iterator<Item = (FrozenAnalogInput, u16)>) {
+    fn handle_frozen_analog_input(
+        &mut self,
+        info: HeaderInfo,
+        iter: &mut dyn Iterator<Item = (FrozenAnalogInput, u16)>,
+    ) {
         for (m, i) in iter {
-            self.push(base(info, PType::FrozenAnalog, i, RVal::F64(m.value), m.flags.value, m.time));
+            self.push(base(
+                info,
+                PType::FrozenAnalog,
+                i,
+                RVal::F64(m.value),
+                m.flags.value,
+                m.time,
+            ));
         }
     }
-    fn handle_analog_input_dead_band(&mut self, info: HeaderInfo, iter: &mut dyn Iterator<Item = (AnalogInputDeadBand, u16)>) {
+    fn handle_analog_input_dead_band(
+        &mut self,
+        info: HeaderInfo,
+        iter: &mut dyn Iterator<Item = (AnalogInputDeadBand, u16)>,
+    ) {
         for (m, i) in iter {
             let v = match m {
                 AnalogInputDeadBand::U16(x) => x as f64,
@@ -157,37 +247,92 @@ impl ReadHandler for Recorder {
             self.push(base(info, PType::AnalogDeadBand, i, RVal::F64(v), 0, None));
         }
     }
-    fn handle_analog_output_status(&mut self, info: HeaderInfo, iter: &mut dyn Iterator<Item = (AnalogOutputStatus, u16)>) {
+    fn handle_analog_output_status(
+        &mut self,
+        info: HeaderInfo,
+        iter: &mut dyn Iterator<Item = (AnalogOutputStatus, u16)>,
+    ) {
         for (m, i) in iter {
-            self.push(base(info, PType::AnalogOutputStatus, i, RVal::F64(m.value), m.flags.value, m.time));
+            self.push(base(
+                info,
+                PType::AnalogOutputStatus,
+                i,
+                RVal::F64(m.value),
+                m.flags.value,
+                m.time,
+            ));
         }
     }
-    fn handle_analog_output_command_event(&mut self, info: HeaderInfo, iter: &mut dyn Iterator<Item = (AnalogOutputCommandEvent, u16)>) {
+    fn handle_analog_output_command_event(
+        &mut self,
+        info: HeaderInfo,
+        iter: &mut dyn Iterator<Item = (AnalogOutputCommandEvent, u16)>,
+    ) {
         for (m, i) in iter {
-            let mut it = base(info, PType::AnalogCommandEvent, i, RVal::Cmd(format!("{:?}", m.commanded_value)), 0, m.time);
+            let mut it = base(
+                info,
+                PType::AnalogCommandEvent,
+                i,
+                RVal::Cmd(format!("{:?}", m.commanded_value)),
+                0,
+                m.time,
+            );
             if let Item::M(r) = &mut it {
                 r.status = Some(m.status.as_u8());
             }
             self.push(it);
         }
     }
-    fn handle_binary_output_command_event(&mut self, info: HeaderInfo, iter: &mut dyn Iterator<Item = (BinaryOutputCommandEvent, u16)>) {
+    fn handle_binary_output_command_event(
+        &mut self,
+        info: HeaderInfo,
+        iter: &mut dyn Iterator<Item = (BinaryOutputCommandEvent, u16)>,
+    ) {
         for (m, i) in iter {
-            let mut it = base(info, PType::BinaryCommandEvent, i, RVal::Bool(m.commanded_state), 0, m.time);
+            let mut it = base(
+                info,
+                PType::BinaryCommandEvent,
+                i,
+                RVal::Bool(m.commanded_state),
+                0,
+                m.time,
+            );
             if let Item::M(r) = &mut it {
                 r.status = Some(m.status.as_u8());
             }
             self.push(it);
         }
     }
-    fn handle_unsigned_integer(&mut self, info: HeaderInfo, iter: &mut dyn Iterator<Item = (UnsignedInteger, u16)>) {
+    fn handle_unsigned_integer(
+        &mut self,
+        info: HeaderInfo,
+        iter: &mut dyn Iterator<Item = (UnsignedInteger, u16)>,
+    ) {
         for (m, i) in iter {
-            self.push(base(info, PType::UnsignedInteger, i, RVal::U8(m.value), 0, None));
+            self.push(base(
+                info,
+                PType::UnsignedInteger,
+                i,
+                RVal::U8(m.value),
+                0,
+                None,
+            ));
         }
     }
-    fn handle_octet_string<'a>(&mut self, info: HeaderInfo, iter: &'a mut dyn Iterator<Item = (&'a [u8], u16)>) {
+    fn handle_octet_string<'a>(
+        &mut self,
+        info: HeaderInfo,
+        iter: &'a mut dyn Iterator<Item = (&'a [u8], u16)>,
+    ) {
         for (m, i) in iter {
-            self.push(base(info, PType::OctetString, i, RVal::Bytes(m.to_vec()), 0, None));
+            self.push(base(
+                info,
+                PType::OctetString,
+                i,
+                RVal::Bytes(m.to_vec()),
+                0,
+                None,
+            ));
         }
     }
     fn handle_device_attribute(&mut self, _info: HeaderInfo, attr: AnyAttribute) {
